@@ -8,12 +8,18 @@ Decision procedure (docs/C07.md):
   2. Coq: Props/C07.v -- outbox_bounded, stall_non_interference_partial /
      _refuted, yield_retry_bounded, ranked_progress (generic), and the per-run
      obligations over the regenerated inventory (no_blocking_send_to_client,
-     wait_graph_ranked, no_peer_close_in_shared_server, yield_retry_window),
-     instantiated in router_workers_progress.
+     wait_graph_ranked, no_peer_close_in_shared_server, yield_retry_window,
+     yield_retry_keeps_invocation), instantiated in router_workers_progress;
+     the timed model of the RESULT retry (Conc/YieldRetry.v):
+     retried_yield_delivered_at_first_room, retried_yield_cancelled_at_deadline,
+     invocation_kept_during_retries, retried_yield_refuted_without_keep.
   3. Dynamic: go/cmd/concdrive drives the real router in synctest bubbles with
      stalled subsets of sessions x queue sizes {1,2,64} x generated traffic;
      oracles: no deadlock, latency 0 at non-stalled sessions (documented
-     yield-retry exception), outbox bound.
+     yield-retry exception), outbox bound.  First of every batch: the scenario
+     yield-to-stalled-caller-then-resume (q x kind x resume instant), whose
+     predictions must equal the table Coq computes from the regenerated
+     constants (else the tie between YieldRetry.v and the harness is broken).
   4. Verdict: every dynamic failure is a concrete history -> finding (KNOWN-FINDING
      only for signatures listed in known_findings.json).  A broken obligation or
      translator failure triggers a targeted search around the named functions;
@@ -28,7 +34,8 @@ from checks import concshared as cs
 
 PID = "C07"
 OBLIGATION_FILES = ["Conc/SkelObligationsC07.v"]
-C07_OBLIGATIONS = ["no_blocking_send_to_client", "wait_graph_ranked", "no_peer_close_in_shared_server"]
+C07_OBLIGATIONS = ["no_blocking_send_to_client", "wait_graph_ranked", "no_peer_close_in_shared_server",
+                   "yield_retry_keeps_invocation"]
 
 KNOWN_SIG = "meta-result-retry-blocks-metapeer"
 WHAT = {
@@ -92,6 +99,12 @@ def main(tier, replay):
     harness_error = None
     if summary is None:
         harness_error = dlog
+    yr = _yield_resume(rep, summary, targeted)
+    if yr["mismatch"] and not broken:
+        # the Go mirror of the model and the Coq model disagree: nothing the
+        # scenario says can be attributed to the model
+        broken.append("yield-resume predictions of go/cmd/concdrive differ from Conc/YieldRetry.v on the "
+                      "regenerated constants: %s" % "; ".join(yr["mismatch"][:4]))
     failures = []
     for sm in (summary, targeted):
         if sm:
@@ -129,11 +142,31 @@ def main(tier, replay):
     if harness_error and summary is None:
         # the machinery itself failed: not a verdict about the code
         common.info("C07: harness error:\n" + harness_error[-2000:])
-        _evidence(tier, t, v, r, rep, summary, targeted, assumptions, broken)
+        _evidence(tier, t, v, r, rep, summary, targeted, assumptions, broken, yr)
         return 3
 
-    _evidence(tier, t, v, r, rep, summary, targeted, assumptions, broken)
+    _evidence(tier, t, v, r, rep, summary, targeted, assumptions, broken, yr)
     return v.exit_code()
+
+
+def _yield_resume(rep, *summaries):
+    """Rows of the scenario yield-to-stalled-caller-then-resume and the
+    comparison of the harness's predictions with Coq's table."""
+    table = rep.get("yield_resume_table") or {}
+    rows, mismatch, compared = [], [], 0
+    for sm in summaries:
+        for row in (sm or {}).get("yield_resume") or []:
+            rows.append(row)
+            want = table.get(int(row.get("resume_after_us", -1)))
+            if want is None:
+                continue
+            compared += 1
+            if (int(row.get("predicted_us", -1)), row.get("predicted")) != want:
+                mismatch.append("t=%s us: harness %s at %s us, Coq %s at %s us" % (
+                    row.get("resume_after_us"), row.get("predicted"), row.get("predicted_us"), want[1], want[0]))
+    if rep.get("ok") and rows and not table:
+        mismatch.append("Conc/SkelReport.v printed no YIELD_RESUME_TABLE")
+    return dict(rows=rows, mismatch=mismatch, compared=compared, table_size=len(table))
 
 
 def _counts(sm):
@@ -143,7 +176,7 @@ def _counts(sm):
                 signatures=sm.get("signatures"), wall_s=sm.get("wall_s"))
 
 
-def _evidence(tier, t, v, r, rep, summary, targeted, assumptions, broken):
+def _evidence(tier, t, v, r, rep, summary, targeted, assumptions, broken, yr=None):
     sm = summary or {}
     cov = dict(
         obligations=len(r["obligations"]),
@@ -166,6 +199,12 @@ def _evidence(tier, t, v, r, rep, summary, targeted, assumptions, broken):
         signatures=sm.get("signatures"),
         targeted_search=_counts(targeted),
         known_findings=v.known,
+        yield_keep_reading=rep.get("yield_keep"),
+        yield_resume=dict(
+            scenarios=len((yr or {}).get("rows", [])),
+            predictions_compared_with_coq=(yr or {}).get("compared"),
+            mismatches=(yr or {}).get("mismatch"),
+            outcomes=_yr_outcomes((yr or {}).get("rows", []))),
     )
     if not r["ok"]:
         cov["coq_failed"] = r["failed"][:1200]
@@ -177,6 +216,14 @@ def _evidence(tier, t, v, r, rep, summary, targeted, assumptions, broken):
         cov["discharged_count"] = cov.pop("discharged")
         cov["explanation"] = "no proof obligation was discharged on this run; see coq_failed / broken"
     common.write_evidence(PID, tier, "proof", cov, t.s(), v.violations, assumptions)
+
+
+def _yr_outcomes(rows):
+    res = {}
+    for row in rows:
+        k = "%s->%s" % (row.get("predicted"), row.get("observed"))
+        res[k] = res.get(k, 0) + 1
+    return res
 
 
 def _replay(path):
